@@ -9650,6 +9650,57 @@ let clear_events s =
     mint_rate = x.mint_rate; mint_inflation = x.mint_inflation; now = x.now;
     events = (l x) })) (fun _ -> []) s
 
+(** val i64MAX : z **)
+
+let i64MAX =
+  Zpos (XI (XI (XI (XI (XI (XI (XI (XI (XI (XI (XI (XI (XI (XI (XI (XI (XI
+    (XI (XI (XI (XI (XI (XI (XI (XI (XI (XI (XI (XI (XI (XI (XI (XI (XI (XI
+    (XI (XI (XI (XI (XI (XI (XI (XI (XI (XI (XI (XI (XI (XI (XI (XI (XI (XI
+    (XI (XI (XI (XI (XI (XI (XI (XI (XI
+    XH))))))))))))))))))))))))))))))))))))))))))))))))))))))))))))))
+
+(** val pos_i64 : z -> bool **)
+
+let pos_i64 z0 =
+  (&&) (Z.ltb Z0 z0) (Z.leb z0 i64MAX)
+
+(** val coins_param_ok : coin list -> bool **)
+
+let coins_param_ok l =
+  (||) (bool_decide (list_eq_nil_dec l)) (coins_sorted l)
+
+(** val coin_param_ok : coin -> bool **)
+
+let coin_param_ok c =
+  (&&) ((&&) (Z.leb Z0 (snd c)) (Z.ltb (snd c) mAXINT)) (denom_ok (fst c))
+
+(** val share_ok : z -> bool **)
+
+let share_ok z0 =
+  (&&) (Z.leb Z0 z0) (Z.leb z0 p18)
+
+(** val pchange_valid : pchange -> bool **)
+
+let pchange_valid = function
+| PCProvDeposit c0 -> coin_param_ok c0
+| PCProvShare z0 -> share_ok z0
+| PCNodeDeposit c0 -> coin_param_ok c0
+| PCNodeActive z0 -> pos_i64 z0
+| PCMaxGb c0 -> coins_param_ok c0
+| PCMinGb c0 -> coins_param_ok c0
+| PCMaxHr c0 -> coins_param_ok c0
+| PCMinHr c0 -> coins_param_ok c0
+| PCMaxSubGb z0 -> pos_i64 z0
+| PCMinSubGb z0 -> pos_i64 z0
+| PCMaxSubHr z0 -> pos_i64 z0
+| PCMinSubHr z0 -> pos_i64 z0
+| PCNodeShare z0 -> share_ok z0
+| PCSubDelay z0 -> pos_i64 z0
+| PCSessDelay z0 -> pos_i64 z0
+| PCSwapDenom d -> denom_ok d
+| PCSwapApprover t0 -> ta_valid RAcc t0
+| _ -> true
+
 (** val step : state -> op -> outcome **)
 
 let step s o =
@@ -9682,7 +9733,10 @@ let step s o =
    | OTx m -> (match run_tx s0 m with
                | Ok s' -> OOk s'
                | _ -> ORejected)
-   | OGov cs -> OOk (fold_left apply_pchange cs s0)
+   | OGov cs ->
+     if forallb pchange_valid cs
+     then OOk (fold_left apply_pchange cs s0)
+     else ORejected
    | OEnd ->
      (match end_block s0 with
       | Ok s' ->
@@ -10066,20 +10120,21 @@ let wf_op_c03_b s = function
     (bal_small_b s (msg_sender m).ta_bytes)
 | OGov cs ->
   let s' = fold_left apply_pchange cs s in
-  (&&) (par_ok_b s'.pars)
-    (bool_decide
-      (map_Forall_dec
-        (Obj.magic (fun _ _ -> gmap_fmap Coq_Z.eq_dec z_countable))
-        (Obj.magic (fun _ -> gmap_lookup Coq_Z.eq_dec z_countable)) (fun _ ->
-        gmap_empty Coq_Z.eq_dec z_countable)
-        (Obj.magic (fun _ -> gmap_partial_alter Coq_Z.eq_dec z_countable))
-        (Obj.magic (fun _ _ -> gmap_omap Coq_Z.eq_dec z_countable))
-        (Obj.magic (fun _ _ _ -> gmap_merge Coq_Z.eq_dec z_countable))
-        (Obj.magic (fun _ -> gmap_to_list Coq_Z.eq_dec z_countable))
-        Coq_Z.eq_dec (fun _ x ->
-        impl_dec (decide_rel status_eq_dec x.ss_status SPending)
-          (decide_rel Coq_Z.le_dec x.ss_inactive_at
-            (Z.add s.now s'.pars.p_sub_delay))) s.sessions))
+  (||) (negb (forallb pchange_valid cs))
+    ((&&) (Z.leb s'.pars.p_sess_delay s'.pars.p_sub_delay)
+      (bool_decide
+        (map_Forall_dec
+          (Obj.magic (fun _ _ -> gmap_fmap Coq_Z.eq_dec z_countable))
+          (Obj.magic (fun _ -> gmap_lookup Coq_Z.eq_dec z_countable))
+          (fun _ -> gmap_empty Coq_Z.eq_dec z_countable)
+          (Obj.magic (fun _ -> gmap_partial_alter Coq_Z.eq_dec z_countable))
+          (Obj.magic (fun _ _ -> gmap_omap Coq_Z.eq_dec z_countable))
+          (Obj.magic (fun _ _ _ -> gmap_merge Coq_Z.eq_dec z_countable))
+          (Obj.magic (fun _ -> gmap_to_list Coq_Z.eq_dec z_countable))
+          Coq_Z.eq_dec (fun _ x ->
+          impl_dec (decide_rel status_eq_dec x.ss_status SPending)
+            (decide_rel Coq_Z.le_dec x.ss_inactive_at
+              (Z.add s.now s'.pars.p_sub_delay))) s.sessions)))
 | OEnd -> true
 
 (** val wf_genesis_b : genesis -> bool **)
@@ -10493,9 +10548,9 @@ let status_ai = function
 let nodupb eqDecision0 l =
   bool_decide (noDup_dec eqDecision0 l)
 
-(** val share_ok : z -> bool **)
+(** val share_ok0 : z -> bool **)
 
-let share_ok z0 =
+let share_ok0 z0 =
   (&&) (Z.leb Z0 z0) (Z.leb z0 p18)
 
 (** val validate_deposit : (addr * (denom, z) gmap) -> bool **)
@@ -10583,8 +10638,8 @@ let validate_swap w =
 let validate_inflation i =
   (&&)
     ((&&)
-      ((&&) ((&&) (share_ok i.inf_max) (share_ok i.inf_min))
-        (Z.leb i.inf_min i.inf_max)) (share_ok i.inf_rate))
+      ((&&) ((&&) (share_ok0 i.inf_max) (share_ok0 i.inf_min))
+        (Z.leb i.inf_min i.inf_max)) (share_ok0 i.inf_rate))
     (negb (Z.eqb i.inf_ts tzero))
 
 (** val validate_allocation : allocation -> bool **)
@@ -10600,7 +10655,7 @@ let deposit_coin_ok c =
 (** val prov_params_ok : params -> bool **)
 
 let prov_params_ok p =
-  (&&) (deposit_coin_ok p.p_prov_deposit) (share_ok p.p_prov_share)
+  (&&) (deposit_coin_ok p.p_prov_deposit) (share_ok0 p.p_prov_share)
 
 (** val node_params_ok : params -> bool **)
 
@@ -10619,7 +10674,7 @@ let node_params_ok p =
                   (coins_ok p.p_min_gb)) (coins_ok p.p_max_hr))
               (coins_ok p.p_min_hr)) (Z.ltb Z0 p.p_max_sub_gb))
           (Z.ltb Z0 p.p_min_sub_gb)) (Z.ltb Z0 p.p_max_sub_hr))
-      (Z.ltb Z0 p.p_min_sub_hr)) (share_ok p.p_node_share)
+      (Z.ltb Z0 p.p_min_sub_hr)) (share_ok0 p.p_node_share)
 
 (** val sub_params_ok : params -> bool **)
 
